@@ -1037,7 +1037,51 @@ func (x g) preds() []pred {
 
 // templates: whole programs around the features with the most special handling in the engine.
 func (x g) template() string {
-	switch x.n(0, 4) {
+	switch x.n(0, 6) {
+	case 5: // deferred predicates that call each other (resolved top-down), with and without progress
+		n := x.n(2, 3)
+		var sb strings.Builder
+		names := []string{"even", "odd", "third"}[:n]
+		for _, p := range names {
+			fmt.Fprintf(&sb, "Decl %s(X)\n  descr [mode(\"+\"), deferred()].\n", p)
+		}
+		for i, p := range names {
+			next := names[(i+1)%n]
+			switch x.n(0, 2) {
+			case 0: // no progress: the nesting bound has to end it
+				fmt.Fprintf(&sb, "%s(X) :- %s(X).\n", p, next)
+			case 1: // counts down to a base case
+				fmt.Fprintf(&sb, "%s(X) :- X > 0, Y = fn:minus(X, 1), %s(Y).\n", p, next)
+				if i == 0 {
+					fmt.Fprintf(&sb, "%s(0).\n", p)
+				}
+			default: // counts up without bound
+				fmt.Fprintf(&sb, "%s(X) :- Y = fn:plus(X, 1), %s(Y).\n", p, next)
+			}
+		}
+		fmt.Fprintf(&sb, "p(%s). p(3).\nq(X) :- p(X), %s(X).\n", x.pick([]string{"1", "0", "200", "2000"}), names[0])
+		return sb.String()
+	case 6: // lattice over a graph with cycles and a disconnected edge: dominated facts are derived for ever
+		var sb strings.Builder
+		nodes := []string{"/a", "/b", "/c", "/d"}
+		for i, n := 0, x.n(2, 6); i < n; i++ {
+			fmt.Fprintf(&sb, "edge(%s, %s). ", x.pick(nodes), x.pick(nodes))
+		}
+		join := "edge(Y, Z)"
+		if x.chance(30) {
+			join = "edge(YY, Z)"
+		}
+		sb.WriteString(`
+Decl shortest_path(X, Y, P)
+  descr [fundep([X, Y], [P]), merge([P], "shorter")].
+shortest_path(X, Y, [Y, X]) :- edge(X, Y).
+shortest_path(X, Z, NewPath) :- shortest_path(X, Y, Path), ` + join + ` |> let NewPath = fn:list:cons(Z, Path).
+Decl shorter(P1, P2, P)
+  descr [mode("+", "+", "-"), deferred()].
+shorter(P1, P2, P) :- fn:list:len(P1) < fn:list:len(P2), P = P1.
+shorter(P1, P2, P) :- fn:list:len(P2) <= fn:list:len(P1), P = P2.
+`)
+		return sb.String()
 	case 0: // custom lattice: functional dependency + merge predicate evaluated top-down
 		return `edge(/a, /b). edge(/b, /c). edge(/c, /d). edge(/a, /d).
 Decl shortest_path(X, Y, P)
